@@ -23,15 +23,21 @@ RULE = ("histories of 3-11 operations on a fresh in-memory cluster of 1-3 nodes 
         "(including batches one leaseholder must reject as a whole: ordinary channels next to its internal control "
         "channel, a deleted or a never existing key), deletes by key "
         "and by name (indexes with and without their dependants, duplicates, already deleted keys, internal channels), "
-        "channel-service restarts, counter bumps to the 2^20 boundary; about a quarter of the requests are malformed "
+        "channel-service restarts, counter bumps to the 2^20 boundary; two create requests in overlapping transactions "
+        "on one node committed in reverse order, then a restart of that node's channel service over the same DB and "
+        "engines and one more create (keys at or below the persisted counter, never handed out twice); scripted storage "
+        "faults (every node's engine sits on a file-system wrapper; 'the next meta.json persist on node i fails once', "
+        "then a create or rename that runs entirely on node i, issued in a transaction through any node: it must fail "
+        "and leave metadata and every engine unchanged and equal); about a quarter of the requests are malformed "
         "(empty/invalid/duplicate/taken names, missing data type, data channel without or with a wrong index, virtual "
         "channel with an index, unknown node). Non-trivial = at least two successful creates through different gateways "
         "or for different leaseholders, a successful delete or rename of an existing channel, and one failing request; "
         "distinct by hash.")
 TRUSTED = ["hooks core/pkg/distribution/channel/export_verif.go (VerifReopen = OpenService over the same config, "
-           "VerifCounters, VerifBump = counter.add) and cesium/export_verif_c15.go (VerifChannelKeys = keys of db.mu.dbs)",
+           "VerifCounters, VerifBump = the counter's kv Add with counter.add's 2^20 guard) and cesium/export_verif_c15.go (VerifChannelKeys = keys of db.mu.dbs)",
            "mock cluster of core/pkg/distribution/mock: real channel.Service, aspen DB + gossip on the mock network, "
-           "cesium on a memory FS; the harness waits until all nodes report identical metadata before observing"]
+           "cesium on a memory FS behind the harness's fault-injecting wrapper (fails one Rename onto meta.json when "
+           "armed, passes everything else through); the harness waits until all nodes report identical metadata before observing"]
 ASSUMES = ["fewer than 50 external non-virtual channels (the licence overflow check is not modelled)",
            "metadata gossip settles between operations (the harness waits for agreement of all nodes; operations are "
            "issued one at a time)",
